@@ -88,6 +88,7 @@
    outside [T_F8m] and F16 (no canonicity assumption needed), C08_refuted_merge keeps the
    witness. *)
 From Verif Require Import Common Json C08_Model C08_Spec C08_Proofs C08_MergeProofs.
+From Verif Require Import C08_Text C08_TextProofs.
 
 Definition C08_full_statement : Prop :=
   forall jq types filter h, oracle_canonical jq h ->
@@ -565,3 +566,100 @@ Example C08_object_part_change_hyp_met :
   apply_filter jq_labels_data (mkConfig [Modified] true) (e_obj cached) = Some cached /\
   last_out k_k (fst (jq_labels_data (e_obj cached))) <> last_out k_k (fst (jq_labels_data (o_data 2))).
 Proof. cbv zeta. split; [vm_compute; reflexivity | vm_compute; discriminate]. Qed.
+
+(* ---- WHEN two projections differ: the value domain (C08_Text.v) ----
+   The code compares md5 checksums of the canonical JSON text of the projections.
+   [val_ok]: numbers as the harness hands them over (integral -> JNum, else a non-integer literal). *)
+
+(* the canonical text is injective on JSON values: two values have the same text iff they are
+   equal - 9090 / "9090", true / "true", null / "null", {"a":"x","b":"y"} / {"a":"x b:y"}, a map or
+   array / the string that prints it: all have different texts *)
+Theorem C08_json_text_injective : forall a b,
+  val_ok a = true -> val_ok b = true -> (json_text a = json_text b <-> a = b).
+Proof. exact json_text_injective. Qed.
+Print Assumptions C08_json_text_injective.
+
+(* under the ONE trusted statement about md5 (no collision among canonical texts of JSON values):
+   the checksums are equal iff the projections are equal as JSON values *)
+Theorem C08_checksum_decides_equality : forall md5, collision_free md5 -> forall a b,
+  val_ok a = true -> val_ok b = true ->
+  bytes_eqb (checksum md5 a) (checksum md5 b) = json_eqb a b.
+Proof. exact checksum_decides_equality. Qed.
+Print Assumptions C08_checksum_decides_equality.
+
+(* the model that compares checksums (handleWatchEvent as written) behaves on every history
+   exactly as the model that compares projections (the one all theorems above speak of) *)
+Theorem C08_checksum_model_is_projection_model : forall md5, collision_free md5 -> forall jq cfg h c,
+  cache_ok c -> projs_ok jq cfg h -> run_ck md5 jq cfg c h = run jq cfg c h.
+Proof. exact run_ck_run. Qed.
+Print Assumptions C08_checksum_model_is_projection_model.
+
+(* the property for the checksum model, on every history outside the recorded findings *)
+Theorem C08_checksum_model_partial : forall md5, collision_free md5 -> forall jq types filter h,
+  projs_ok jq (mkConfig types filter) h ->
+  T_F8m jq filter h = false -> T_F16 jq filter h = false ->
+  P jq types filter h (map to_obs (run_ck md5 jq (mkConfig types filter) [] h)) = true.
+Proof. exact checksum_model_partial. Qed.
+Print Assumptions C08_checksum_model_partial.
+
+(* the clause about values: a Modified delivery of a known object fires iff Modified is listed
+   and the projection, as a JSON value, differs from the last one known *)
+Theorem C08_modified_value_change_triggers : forall md5, collision_free md5 -> forall jq types filter h,
+  projs_ok jq (mkConfig types filter) h ->
+  T_F8m jq filter h = false -> T_F16 jq filter h = false ->
+  modified_values_ok jq types filter [] h (map to_obs (run_ck md5 jq (mkConfig types filter) [] h)) = true.
+Proof. exact modified_value_change_triggers. Qed.
+Print Assumptions C08_modified_value_change_triggers.
+
+(* whatever observations satisfy P satisfy the clause (it is part of the property) *)
+Theorem C08_P_implies_modified_values : forall jq types filter h k obs_l,
+  P_from jq types filter k h obs_l = true -> modified_values_ok jq types filter k h obs_l = true.
+Proof. intros jq types filter h k obs_l. exact (P_from_modified_values jq types filter h k obs_l). Qed.
+Print Assumptions C08_P_implies_modified_values.
+
+(* non-vacuity.  The look-alikes are values ([val_ok]) and pairwise different, so by the
+   theorem their texts differ; a history over them meets the hypotheses; the identity function
+   is collision-free (the hypothesis about md5 is satisfiable). *)
+Definition b_9090 : bytes := [57; 48; 57; 48]%N.
+Definition b_tp : bytes := [116; 112]%N.                      (* tp *)
+Definition b_a : bytes := [97]%N.
+Definition b_b : bytes := [98]%N.
+Definition b_x : bytes := [120]%N.
+Definition b_y : bytes := [121]%N.
+Definition b_x_b_y : bytes := [120; 32; 98; 58; 121]%N.        (* x b:y *)
+Definition b_true : bytes := [116; 114; 117; 101]%N.
+Definition b_null : bytes := [110; 117; 108; 108]%N.
+Definition b_1_5 : bytes := [49; 46; 53]%N.                    (* 1.5 *)
+Definition look_alikes : list json :=
+  [JNum 9090; JStr b_9090; JBool true; JStr b_true; JNull; JStr b_null; JFlt b_1_5; JStr b_1_5;
+   JObj [(b_a, JStr b_x); (b_b, JStr b_y)]; JObj [(b_a, JStr b_x_b_y)];
+   JArr [JStr b_x; JStr b_y]; JArr [JStr (b_x ++ [32%N] ++ b_y)]].
+
+Example C08_look_alikes_are_values : forallb val_ok look_alikes = true.
+Proof. vm_compute. reflexivity. Qed.
+
+Example C08_look_alikes_texts_differ :
+  json_text (JNum 9090) <> json_text (JStr b_9090) /\
+  json_text (JObj [(b_a, JStr b_x); (b_b, JStr b_y)]) <> json_text (JObj [(b_a, JStr b_x_b_y)]).
+Proof. split; apply text_differs; try (vm_compute; reflexivity); discriminate. Qed.
+
+Example C08_collision_free_satisfiable : collision_free (fun t => t).
+Proof. intros a b _ _ E. exact E. Qed.
+
+(* jqFilter {tp:.spec.ports[0].targetPort} over an object whose targetPort goes 9090 -> "9090" -> "9090":
+   Added fires, the change of the scalar's TYPE fires, the re-delivery does not *)
+Definition svc_obj (tp : json) : json := JObj [(b_tp, tp)].
+Definition jq_tp (o : json) : list json * bool := ([o], false).
+Definition h_tp : list step :=
+  [(Added, 1%N, svc_obj (JNum 9090)); (Modified, 1%N, svc_obj (JStr b_9090)); (Modified, 1%N, svc_obj (JStr b_9090))].
+
+Example C08_value_hyp_met :
+  projs_ok jq_tp (mkConfig [Added; Modified; Deleted] true) h_tp /\
+  T_F8m jq_tp true h_tp = false /\ T_F16 jq_tp true h_tp = false /\
+  map o_fired (map to_obs (run_ck (fun t => t) jq_tp (mkConfig [Added; Modified; Deleted] true) [] h_tp))
+  = [[Added]; [Modified]; []].
+Proof.
+  split; [|vm_compute; repeat split; reflexivity].
+  intros s e Hin He. cbn [h_tp In] in Hin.
+  destruct Hin as [<-|[<-|[<-|[]]]]; vm_compute in He; injection He as <-; vm_compute; reflexivity.
+Qed.
